@@ -272,5 +272,5 @@ func runC09(t *simrt.Tape, o Opts) Outcome {
 		st.Class = fmt.Sprintf("%s|%s|%v", h.base.Class(), kindsUsed(w), faultKinds(w))
 		st.Sample = map[string]any{"history": h.trace, "secrets": len(w.Ledger.Secrets)}
 	})
-	return finish(s, w, st, false)
+	return finish(s, w, st, true)
 }
